@@ -150,10 +150,12 @@ func checkNewOpen(b *B, as uint32, hold uint16, id uint32, caps []wire.Cap) {
 			b.Violate("", fmt.Sprintf("encoded OPEN is not one well-formed message: err=%v messages=%d trailing=%d", p.Err, len(ms), p.Pending()), wit)
 			return
 		}
-		if !exp.Representable {
-			return // anything well-formed is tolerated
-		}
 		if why := exp.CheckOpen(ms[0].Open); why != "" {
+			if !exp.Representable {
+				// every OPEN that is emitted carries exactly the capabilities (whatever the
+				// layout of the parameters); one that silently leaves some out does not
+				why = "the capabilities do not fit in one parameter (or a value exceeds 255 octets), and the OPEN that was built anyway differs from them: " + why
+			}
 			b.Violate("", "encoded OPEN does not reflect configuration/capabilities: "+why, wit)
 		}
 	})
